@@ -3,9 +3,12 @@
 patch=$(realpath "$1"); shift
 cd /repo && git diff --quiet || { echo "/repo not clean"; exit 9; }
 git -C /repo apply "$patch" || { echo "APPLY_FAIL"; exit 1; }
+# evidence written while the patch is applied is not evidence about /repo: keep the clean files
+rm -rf /tmp/evidence.keep && cp -r /verif/evidence /tmp/evidence.keep
 for spec in "$@"; do
   pid=${spec%%:*}; units=""; [[ "$spec" == *:* ]] && units="--units ${spec#*:}"
   out=$(cd /verif && ./check $pid --tier quick $units 2>&1); rc=$?
   echo "== $spec exit=$rc"; echo "$out" | grep -E "VIOLATION|INCONCLUSIVE|KNOWN-FINDING|obligations discharged" | cut -c1-420
 done
 git -C /repo checkout -q -- .
+rm -rf /verif/evidence && mv /tmp/evidence.keep /verif/evidence
